@@ -3,7 +3,8 @@ from checks_path import *  # noqa
 from conc_common import run_conc, replay_conc
 
 PROPERTY = 'C20'
-PROPS = ['SalsaVerif.Props.C20']
+GEN = ['LogicCycle']
+PROPS = ['SalsaVerif.Props.C20', 'SalsaVerif.Props.GenLogicProvisional']
 EXPLANATION = ('Theorems about the Lean writer/reader machine (clones counter, cancellation flag, cancellation count, revision; order of '
                'operations as in cancel_others): the writer proceeds only with clones = 1 and clones = live handles; with the flag set '
                'every reader fetch step unwinds with PendingWrite; under an explicit fairness hypothesis the writer\'s wait terminates; the '
